@@ -299,6 +299,8 @@ pub struct HostPort {
     pub spec: PortSpec,
     pub tag: u32,
     pub rec_log: Option<Rc<RefCell<RecLog>>>,
+    /// with `keep_snapshots`: the last mean delay the port's filter(s) handed back to the port
+    pub live_mean_delay: Option<Rc<Cell<Option<i128>>>>,
     pub tx_count: u64,
     pub rx_count: u64,
     /// last emitted sequence id of the message types with a counter of their own
@@ -548,6 +550,9 @@ pub struct SnapshotParts {
     pub time_properties_ds: TimePropertiesDS,
     pub path_trace_ds: statime::observability::PathTraceDS,
     pub port_ds: Vec<statime::observability::port::PortDS>,
+    /// per port: the mean delay its filters last handed back to it (units of 2^-32 ns), i.e. the
+    /// value the port itself works with; `None` before the first one
+    pub live_mean_delay: Vec<Option<i128>>,
 }
 
 thread_local! {
@@ -735,6 +740,11 @@ impl World {
                     FilterCfg::Recording { log, mean_delay_units: *mean_delay_units, seq: self.time.clone() }
                 }
             };
+            let live_mean_delay = if self.keep_snapshots { Some(Rc::new(Cell::new(None))) } else { None };
+            let fcfg = match &live_mean_delay {
+                Some(live) => FilterCfg::Tracked { inner: Box::new(fcfg), live: live.clone() },
+                None => fcfg,
+            };
             let handle = SimClockHandle::new(clock.clone(), self.time.clone(), tag);
             let rng = SimRng::new(ch.bits(S_CFG));
             let port = inst.add_port(pc, fcfg, handle, rng);
@@ -753,6 +763,7 @@ impl World {
                 spec: ps.clone(),
                 tag,
                 rec_log,
+                live_mean_delay,
                 tx_count: 0,
                 rx_count: 0,
                 last_seq: [None; 4],
@@ -1304,12 +1315,14 @@ impl World {
         let node = &mut self.nodes[ni];
         node.bmca_count += 1;
         let mut in_bmca: Vec<Box<SPort<InBmca>>> = Vec::new();
+        let mut live_cells: Vec<Option<Rc<Cell<Option<i128>>>>> = Vec::new();
         for hp in node.ports.iter_mut() {
             match std::mem::replace(&mut hp.slot, Slot::Empty) {
                 Slot::Running(p) => in_bmca.push(Box::new((*p).start_bmca())),
                 Slot::InBmca(p) => in_bmca.push(p),
-                Slot::Empty => {}
+                Slot::Empty => continue,
             }
+            live_cells.push(hp.live_mean_delay.clone());
         }
         {
             let mut refs: Vec<&mut SPort<InBmca>> = in_bmca.iter_mut().map(|b| &mut **b).collect();
@@ -1325,6 +1338,7 @@ impl World {
                 time_properties_ds: node.inst.time_properties_ds(),
                 path_trace_ds: node.inst.path_trace_ds(),
                 port_ds: in_bmca.iter().map(|v| v.port_ds()).collect(),
+                live_mean_delay: live_cells.iter().map(|c| c.as_ref().and_then(|c| c.get())).collect(),
             })
         } else {
             None
